@@ -383,6 +383,19 @@ def kf_temkin_valley(check_name, desc, viol):
     return check_name == "point_model" and desc.get("branch") == "des" and desc.get("points") == "isotherm"
 
 
+def kf_freundlich_convex_start(check_name, desc, viol):
+    """KF-C12-3: Freundlich fits always start from m = 1 (K from a Langmuir-type estimate). On exact data of a strongly
+    convex Freundlich curve (generating m < 0.5, i.e. exponent 1/m > 2) sampled down to very low pressures the
+    optimiser occasionally walks to m -> 0 (or m ~ 1) and returns that fit as successful (misfit 10-100 % of the largest
+    loading), in natural units as well (hence the plain tag). Only default-start fits of such data belong to the class."""
+    if check_name not in ("exact_recovery", "point_model", "unit_covariance"):
+        return False
+    spec = desc.get("spec", {})
+    return (spec.get("model") == "Freundlich" and desc.get("guess", "default") != "user"
+            and float(spec.get("shape", {}).get("m", 1.0)) < 0.5
+            and viol.tag in ("exact_not_reproduced", "refit_differs", "unit_covariance"))
+
+
 # =====================================================================================================================
 # (a) exact recovery
 # =====================================================================================================================
